@@ -11,8 +11,8 @@ CONSTANTS Known, AsBuilt
 TL == ndJsonDeserialize("trace.ndjson")
 VARIABLE l
 
-LogOf(es) == [i \in DOMAIN es |-> [u |-> es[i].u, k |-> es[i].k, ref |-> es[i].ref, t |-> es[i].t, tg |-> ToSet(es[i].tg)]]
-ObsMeaning(ms) == [i \in DOMAIN ms |-> [k |-> ms[i].k, ref |-> ms[i].ref, t |-> ms[i].t, tg |-> ToSet(ms[i].tg)]]
+LogOf(es) == [i \in DOMAIN es |-> [u |-> es[i].u, k |-> es[i].k, ref |-> es[i].ref, t |-> es[i].t, tg |-> ToSet(es[i].tg), skip |-> es[i].skip]]
+ObsMeaning(ms) == [i \in DOMAIN ms |-> [k |-> ms[i].k, ref |-> ms[i].ref, t |-> ms[i].t, tg |-> ToSet(ms[i].tg), skip |-> ms[i].skip]]
 
 Explains(x, S) ==
     LET C == LogOf(x.scn.C) L == LogOf(x.scn.L) R == LogOf(x.scn.R)
@@ -36,7 +36,7 @@ ExplainsSync(x, S) ==
        /\ ToSet(x.obs.div) = {IF d = "rsl" THEN "refs/gittuf/reference-state-log" ELSE d : d \in res.div}
 
 \* the property's own conditions, evaluated on what was observed before and after a synchronisation
-AsLog(ms) == [i \in DOMAIN ms |-> [u |-> i, k |-> ms[i].k, ref |-> ms[i].ref, t |-> ms[i].t, tg |-> ms[i].tg]]
+AsLog(ms) == [i \in DOMAIN ms |-> [u |-> i, k |-> ms[i].k, ref |-> ms[i].ref, t |-> ms[i].t, tg |-> ms[i].tg, skip |-> ms[i].skip]]
 GuaranteesHold(x) ==
     LET C == LogOf(x.scn.C) L == LogOf(x.scn.L) R == LogOf(x.scn.R)
         ow == x.scn.op = "syncow"
